@@ -10,9 +10,9 @@ def gen_imf(rng, nseg=None):
     if nseg == 1:
         mb = [lo, hi]
     elif nseg == 2:
-        mb = [lo, rng.choice([0.5, 0.8, 1.0]), hi]
+        mb = [lo, rng.choice([0.5, 0.8, 1.0, 1.4]), hi]           # 1.4: a bin edge exactly on the NS mass
     elif nseg == 3:
-        mb = [lo, rng.choice([0.4, 0.5]), rng.choice([1.0, 1.2]), hi]
+        mb = [lo, rng.choice([0.4, 0.5]), rng.choice([1.0, 1.2, 1.4]), hi]
     else:
         mb = [lo, 0.5, 1.0, rng.choice([5.0, 8.0, 10.0]), hi]
     a = []
